@@ -71,6 +71,17 @@ def catalogue():
     out.append(c)
     # neighbours in the catalogue run as "another optimization" between two target runs: a method with its default
     # options next to the same method with explicit options
+    # ... a zero-weight realization without / with / without a realization filter (same weights, same function counts)
+    for k in range(3):
+        c = _copy(base); c["realizations"] = {"weights": [1.0, 0.0, 2.0], "realization_min_success": 1}
+        if k == 1:
+            c["realization_filters"] = [{"method": "sort-objective", "options": {"sort": [0], "first": 0, "last": 1}}]
+            c["objectives"] = {"weights": [1.0], "realization_filters": [0]}
+        out.append(c)
+    # ... a back-end seeded with a generator OBJECT (the validated configuration is re-used between the runs)
+    for _ in range(2):
+        c = _copy(base); c["optimizer"] = {"method": "differential_evolution", "max_functions": 6, "options": {"popsize": 2}}; c["_seedobj"] = 5
+        out.append(c)
     for method, opts in (("uniform", {"loc": -0.25, "scale": 0.5}), ("truncnorm", {"a": -0.5, "b": 0.5}), ("norm", {"scale": 2.0})):
         c = _copy(base); c["samplers"] = [{"method": method}]
         out.append(c)
@@ -126,6 +137,7 @@ def run_once(cfg, seed, reuse, label):
     cfg = _copy(cfg)
     seedfree = cfg.pop("_seedfree", False)
     tf = cfg.pop("_transforms", None)
+    seedobj = cfg.pop("_seedobj", None)
     transforms = None if tf is None else make_transforms(**tf)
     cfg["gradient"]["seed"] = SEEDS.get(seed, seed)
     h, hp = hashlib.sha256(), hashlib.sha256()
@@ -136,6 +148,8 @@ def run_once(cfg, seed, reuse, label):
         np.random.seed(1000 + state["n"])             # interference DURING the run
         np.random.random(3)
         h.update(variables.tobytes()); h.update(context.realizations.tobytes())
+        for flags in (context.active_objectives, context.active_constraints):      # what the evaluator is asked to compute
+            h.update(b"-" if flags is None else np.asarray(flags).tobytes())
         if context.perturbations is not None:
             h.update(context.perturbations.tobytes())
             rows = variables[context.perturbations >= 0]
@@ -167,11 +181,15 @@ def run_once(cfg, seed, reuse, label):
             SHARED["plan"] = Plan(SHARED["ctx"])
             SHARED["step"] = SHARED["plan"].add_step("optimizer")
         SHARED["sink"]["evaluator"], SHARED["sink"]["finished"] = evaluator, finished
-        key = repr(cfg) + repr(tf)
+        key = repr(cfg) + repr(tf) + repr(seedobj)
         if key not in SHARED["configs"]:
+            if seedobj is not None:
+                cfg["optimizer"]["options"]["seed"] = np.random.default_rng(seedobj)
             SHARED["configs"][key] = EnOptConfig.model_validate(cfg, context=transforms)
         plan, step, cfg = SHARED["plan"], SHARED["step"], SHARED["configs"][key]
     else:
+        if seedobj is not None:
+            cfg["optimizer"]["options"]["seed"] = np.random.default_rng(seedobj)
         ctx = OptimizerContext(evaluator=evaluator, plugin_manager=_new_manager())
         ctx.add_observer(EventType.FINISHED_EVALUATION, finished)
         plan = Plan(ctx)
